@@ -134,7 +134,9 @@ namespace options
 
                 if (!env_value.empty())
                 {
-                    update_value(env_value);
+                    // take the value verbatim, it is not a command line argument
+                    dirty_ = true;
+                    value_ = env_value;
 
                     return;
                 }
